@@ -4,7 +4,7 @@
    (what the library does) to the layouts of Spec/BlockTlb.v (what block.tlb says). *)
 From Coq Require Import NArith ZArith List Bool String Lia ZifyBool ZifyNat ZifyN.
 From PTQ Require Import Base.Result Base.Bytes Base.Bits Model.Cell Model.Builder Model.Hashmap Model.Dtree
-  Spec.TlbPrim Spec.TlbVal Proofs.BuilderRT Spec.Tlb.
+  Spec.TlbPrim Spec.TlbVal Spec.Hashmap Proofs.BuilderRT Proofs.HmParse Proofs.HmRoundtrip Spec.Tlb.
 Import ListNotations.
 Local Open Scope nat_scope.
 
@@ -145,7 +145,132 @@ Section Steps.
     intros Hfuel Hget Hload. destruct fuel as [|f]; [lia|].
     replace (S f - 1) with f by lia. cbn [run]. rewrite Hget. cbn [bind]. rewrite Hload. reflexivity.
   Qed.
+
+  Lemma run_dict_some fuel sid n vt k ss env w ts leaves s' kvs :
+    1 <= fuel -> get_slice ss sid = Ok ts ->
+    s_load_dict (ts_s ts) (Z.of_nat n) = Ok (Some leaves, s') ->
+    mapM (fun '(key, ls) =>
+            rmap (fun '(v, _) => (Z.of_N (of_bits key), v))
+                 (run tbl (fuel - 1) vt [(0, mkTS ty_ordinary ls)] [] [])) leaves = Ok kvs ->
+    run tbl fuel (DOp sid (ODict n vt) k) ss env w
+    = run tbl (fuel - 1) k (set_slice ss sid (mkTS (ts_ty ts) s')) (env ++ [PDict kvs]) (w ++ [1]).
+  Proof.
+    intros Hfuel Hget Hload Hmap. destruct fuel as [|f]; [lia|].
+    replace (S f - 1) with f in * by lia. cbn [run]. rewrite Hget. cbn [bind]. rewrite Hload.
+    cbn [bind]. rewrite Hmap. reflexivity.
+  Qed.
 End Steps.
+
+(* ------------------------------------------------------------------------------------------------ *)
+(* Dictionaries: ascending integer keys are ascending n-bit strings; the canonical tree parses back   *)
+(* ------------------------------------------------------------------------------------------------ *)
+
+Lemma all_of_Forall {A} (P : A -> Prop) l : all_of P l -> Forall P l.
+Proof. induction l as [|x r IH]; cbn [all_of]; [constructor|]. intros [H1 H2]. constructor; auto. Qed.
+
+Lemma ascending_head : forall l a, ascending (a :: l) = true ->
+  Forall (fun b => (a < b)%Z) l /\ ascending l = true.
+Proof.
+  induction l as [|b r IH]; intros a H; [split; [constructor|reflexivity]|].
+  cbn [ascending] in H. apply andb_prop in H. destruct H as [Hab Hr]. apply Z.ltb_lt in Hab.
+  destruct (IH b Hr) as [Hall _]. split; [|exact Hr].
+  constructor; [exact Hab|]. eapply Forall_impl; [|exact Hall]. intros c Hc. cbn beta in Hc. lia.
+Qed.
+
+Lemma enc_inj n a b : (0 <= a < 2 ^ Z.of_nat n)%Z -> (0 <= b < 2 ^ Z.of_nat n)%Z ->
+  enc n a = enc n b -> a = b.
+Proof.
+  intros Ha Hb H. apply (f_equal of_bits) in H. rewrite !of_bits_enc in H.
+  rewrite !Z.mod_small in H by assumption. apply Z2N.inj in H; lia.
+Qed.
+
+Lemma testbit_top w v : (0 <= v < 2 ^ (Z.of_nat w + 1))%Z ->
+  Z.testbit v (Z.of_nat w) = (2 ^ Z.of_nat w <=? v)%Z.
+Proof.
+  intros Hv. assert (Hp : (0 < 2 ^ Z.of_nat w)%Z) by (apply pow2_pos; lia).
+  rewrite Z.pow_add_r, Z.pow_1_r in Hv by lia.
+  destruct (Z.leb_spec (2 ^ Z.of_nat w) v) as [Hle|Hlt].
+  - apply Z.testbit_true; [lia|].
+    replace (v / 2 ^ Z.of_nat w)%Z with 1%Z; [reflexivity|].
+    apply (Z.div_unique v (2 ^ Z.of_nat w) 1 (v - 2 ^ Z.of_nat w)); lia.
+  - apply Z.testbit_false; [lia|]. rewrite Z.div_small by lia. reflexivity.
+Qed.
+
+Lemma lex_enc : forall w a b, (0 <= a < 2 ^ Z.of_nat w)%Z -> (0 <= b < 2 ^ Z.of_nat w)%Z -> (a <= b)%Z ->
+  lex_leb (enc w a) (enc w b) = true.
+Proof.
+  induction w as [|w IH]; intros a b Ha Hb Hab; [reflexivity|].
+  rewrite !enc_cons. cbn [lex_leb].
+  rewrite Nat2Z.inj_succ in Ha, Hb. replace (Z.succ (Z.of_nat w)) with (Z.of_nat w + 1)%Z in Ha, Hb by lia.
+  rewrite !testbit_top by assumption.
+  assert (Hp : (0 < 2 ^ Z.of_nat w)%Z) by (apply pow2_pos; lia).
+  rewrite Z.pow_add_r, Z.pow_1_r in Ha, Hb by lia.
+  rewrite <- (enc_mod w a), <- (enc_mod w b).
+  destruct (Z.leb_spec (2 ^ Z.of_nat w) a) as [Ha1|Ha0]; destruct (Z.leb_spec (2 ^ Z.of_nat w) b) as [Hb1|Hb0];
+    cbn [Bool.eqb negb].
+  - apply IH; try (apply Z.mod_pos_bound; lia).
+    rewrite <- (Z.mod_unique a (2 ^ Z.of_nat w) 1 (a - 2 ^ Z.of_nat w)) by lia.
+    rewrite <- (Z.mod_unique b (2 ^ Z.of_nat w) 1 (b - 2 ^ Z.of_nat w)) by lia. lia.
+  - lia.
+  - reflexivity.
+  - apply IH; try (apply Z.mod_pos_bound; lia). rewrite !Z.mod_small by lia. exact Hab.
+Qed.
+
+Lemma asc_nodup n : forall ks, ascending ks = true ->
+  Forall (fun k => (0 <= k < 2 ^ Z.of_nat n)%Z) ks -> NoDup (map (enc n) ks).
+Proof.
+  induction ks as [|a l IH]; intros Hasc Hrange; [constructor|].
+  destruct (ascending_head l a Hasc) as [Hlt Hl]. inversion Hrange as [|? ? Ha Hr]; subst.
+  cbn [map]. constructor; [|apply IH; assumption].
+  intros Hin. apply in_map_iff in Hin. destruct Hin as (b & Heq & Hb).
+  rewrite Forall_forall in Hlt, Hr. specialize (Hlt b Hb). specialize (Hr b Hb).
+  apply enc_inj in Heq; [lia|assumption|assumption].
+Qed.
+
+Lemma asc_sorted n : forall (src : kvs) ks, map fst src = map (enc n) ks -> ascending ks = true ->
+  Forall (fun k => (0 <= k < 2 ^ Z.of_nat n)%Z) ks -> sort_kvs src = src.
+Proof.
+  induction src as [|x l IH]; intros ks Hk Hasc Hrange; [reflexivity|].
+  destruct ks as [|a ks']; [discriminate|]. cbn [map] in Hk. injection Hk as Hx Hl.
+  destruct (ascending_head ks' a Hasc) as [Hlt Hasc']. inversion Hrange as [|? ? Ha Hr]; subst.
+  rewrite rt_sort_cons. rewrite (IH ks' Hl Hasc' Hr).
+  destruct l as [|y r]; [reflexivity|]. destruct ks' as [|b ks'']; [discriminate|].
+  cbn [map] in Hl. injection Hl as Hy Hl. cbn [insert_kv]. rewrite Hx, Hy.
+  inversion Hlt; subst. inversion Hr; subst. rewrite lex_enc by (assumption || lia). reflexivity.
+Qed.
+
+Lemma keys_length n : forall (src : kvs) ks, map fst src = map (enc n) ks ->
+  Forall (fun kv => List.length (fst kv) = n) src.
+Proof.
+  induction src as [|x l IH]; intros ks Hk; [constructor|].
+  destruct ks as [|a ks']; [discriminate|]. cbn [map] in Hk. injection Hk as Hx Hl.
+  constructor; [rewrite Hx; apply enc_length|exact (IH ks' Hl)].
+Qed.
+
+Lemma canon_cell_ordinary e n :
+  exists bits refs, cell_of (canon_kinds (canon_vtree e) n) n = Cell ty_ordinary bits refs.
+Proof. destruct e as [l [v|a b]]; cbn [canon_vtree canon_kinds cell_of]; eauto. Qed.
+
+Lemma load_dict_valid t n tb tr : 1 <= n <= 1023 -> vtree_ok t n = true ->
+  (exists bits refs, cell_of t n = Cell ty_ordinary bits refs) ->
+  s_load_dict (mkS (true :: tb) (cell_of t n :: tr)) (Z.of_nat n) = Ok (Some (leaves_of t []), mkS tb tr).
+Proof.
+  intros Hn Hok (bits & refs & Hc). pose proof (parse_any_valid t n Hn Hok) as Hp. rewrite Hc in Hp |- *.
+  unfold s_load_dict, s_load_bit, s_preload_bit, s_skip, s_load_ref.
+  cbn [s_bits s_refs List.length Nat.ltb Nat.leb bind skipn]. unfold hashmap_parse.
+  rewrite Z.eqb_refl. cbn [negb]. rewrite Hp. reflexivity.
+Qed.
+
+Lemma canon_leaves n (src : kvs) e : NoDup (map fst src) ->
+  Forall (fun kv => List.length (fst kv) = n) src -> sort_kvs src = src ->
+  s_patricia (S n) src = Some e ->
+  leaves_of (canon_kinds (canon_vtree e) n) [] = map rt_conv src.
+Proof.
+  intros Hnd Hlen Hsorted Hpat. rewrite rt_leaves_canon.
+  rewrite (rt_patricia_leaves (S n) n src e [] (Nat.lt_succ_diag_r n) Hnd Hlen Hpat). rewrite Hsorted.
+  f_equal. rewrite <- (map_id src) at 2. apply map_ext. intros [k v]. reflexivity.
+Qed.
+
 
 (* ------------------------------------------------------------------------------------------------ *)
 (* Primitive fields: the op, the loaded value, the attribute expression                               *)
@@ -273,6 +398,52 @@ Proof. intros H. destruct x; (contradiction || reflexivity). Qed.
 Lemma wt_maybe_some wty g x : x <> PNone -> wt_field wty (FMaybe g) x -> wt_field wty g x.
 Proof. intros H. destruct x; (contradiction || (intros Hw; exact Hw)). Qed.
 
+(* what a collected attribute (name, expression) must satisfy in the environment E: it evaluates to the
+   value the attribute has, and a constraint reading it sees the same integer *)
+Definition gnum_e (e : dexpr) (E : list pv) : Z :=
+  match e with
+  | EVar i => numof (nth i E PNone)
+  | EConstInt z => z
+  | EConstBool true => 1%Z
+  | _ => 0%Z
+  end.
+Definition entry_ok (look : string -> pv) (E : list pv) (p : string * dexpr) : Prop :=
+  (forall leaf, eval (snd p) E leaf = look (fst p)) /\ gnum_e (snd p) E = numof (look (fst p)).
+Definition acc_ok (look : string -> pv) (env : list pv) (acc : list (string * dexpr)) : Prop :=
+  Forall (fun p => forall more, entry_ok look (env ++ more) p) acc.
+
+Lemma entry_var look E nm i : nth i E PNone = look nm -> entry_ok look E (nm, EVar i).
+Proof. intros H. split; cbn [fst snd eval gnum_e]; [intros _; exact H|rewrite H; reflexivity]. Qed.
+Lemma entry_none look E nm : look nm = PNone -> entry_ok look E (nm, ENone).
+Proof. intros H. split; cbn [fst snd eval gnum_e]; [intros _; symmetry; exact H|rewrite H; reflexivity]. Qed.
+Lemma entry_hex look E nm i bs : nth i E PNone = PBytes bs -> look nm = PHex bs ->
+  entry_ok look E (nm, EHex (EVar i)).
+Proof.
+  intros H1 H2. split; cbn [fst snd eval gnum_e]; [intros _; rewrite H1; symmetry; exact H2|].
+  rewrite H2. reflexivity.
+Qed.
+Lemma entry_const look E nm cv : look nm = cval_pv cv -> entry_ok look E (nm, cval_expr cv).
+Proof.
+  intros H. split; cbn [fst snd]; [intros leaf|]; rewrite H; destruct cv as [s| |[|]|z]; reflexivity.
+Qed.
+
+Lemma acc_ok_ext look env acc x : acc_ok look env acc -> acc_ok look (env ++ x) acc.
+Proof.
+  unfold acc_ok. intros H. eapply Forall_impl; [|exact H]. intros p Hp more. cbn beta in Hp.
+  rewrite <- app_assoc. apply Hp.
+Qed.
+
+Lemma prim_field_entry wty look f o nm n env more :
+  fty_op f = Some o -> wt_field wty f (look nm) -> List.length env = n ->
+  entry_ok look (env ++ [fty_raw f (look nm)] ++ more) (nm, fty_expr f n).
+Proof.
+  intros Hop Hwt Hn. subst n.
+  destruct f; cbn [fty_op] in Hop; try discriminate; cbn [fty_expr app];
+    cbn [wt_field] in Hwt; destruct (look nm) eqn:Hx; try contradiction; cbn [fty_raw];
+    try (apply entry_var; rewrite nth_middle; symmetry; exact Hx).
+  apply (entry_hex _ _ _ _ l); [apply nth_middle|exact Hx].
+Qed.
+
 Section Correct.
   Variable tbl : table.
   Variable st : stable.
@@ -300,7 +471,36 @@ Section Correct.
       /\ (forall j, j <> sid -> j < ns -> get_slice ss' j = get_slice ss j)
       /\ List.length ws = List.length vals /\ ns <= ns'
       /\ map fst acc' = names
-      /\ Forall (fun p => forall more leaf, eval (snd p) (env ++ vals ++ more) leaf = look (fst p)) acc'.
+      /\ Forall (fun p => forall more, entry_ok look (env ++ vals ++ more) p) acc'.
+
+  (* the leaves of a dictionary, parsed one by one by the value tree, give back the pairs *)
+  Lemma dict_run vf n vt f : forall (kl : list (Z * pv)) (src : kvs),
+    (forall kv b r, In kv kl -> enc_field (enc_type st d) vf (snd kv) = Ok (b, r) ->
+       wt_field (wt_type st d) vf (snd kv) ->
+       exists ss', run tbl f vt [(0, mkTS ty_ordinary (mkS b r))] [] [] = Ok (snd kv, ss')) ->
+    mapM (fun kv => rmap (fun p => (enc n (fst kv), p)) (enc_field (enc_type st d) vf (snd kv))) kl = Ok src ->
+    Forall (fun kv => (0 <= fst kv < 2 ^ Z.of_nat n)%Z /\ wt_field (wt_type st d) vf (snd kv)) kl ->
+    mapM (fun '(key, ls) =>
+            rmap (fun '(v, _) => (Z.of_N (of_bits key), v)) (run tbl f vt [(0, mkTS ty_ordinary ls)] [] []))
+         (map rt_conv src) = Ok kl
+    /\ map fst src = map (enc n) (map fst kl).
+  Proof.
+    induction kl as [|[k x] rest IH]; intros src Hval Hsrc Hall.
+    - cbn [mapM] in Hsrc. inversion Hsrc; subst src. split; reflexivity.
+    - cbn [mapM fst snd] in Hsrc.
+      destruct (enc_field (enc_type st d) vf x) as [[b r]|e0] eqn:Hx; cbn [rmap bind] in Hsrc; [|discriminate].
+      destruct (mapM (fun kv => rmap (fun p => (enc n (fst kv), p)) (enc_field (enc_type st d) vf (snd kv))) rest)
+        as [src'|e0] eqn:Hrest; cbn [bind] in Hsrc; [|discriminate].
+      inversion Hsrc; subst src; clear Hsrc. inversion Hall as [|? ? [Hk Hwx] Hall']; subst.
+      cbn [fst snd] in Hk, Hwx.
+      destruct (IH src') as [IH1 IH2]; [|reflexivity|exact Hall'|].
+      { intros kv b' r' Hin. apply Hval. right. exact Hin. }
+      destruct (Hval (k, x) b r (or_introl eq_refl) Hx Hwx) as (ss' & Hrun). cbn [snd] in Hrun.
+      split.
+      + cbn [map rt_conv fst snd mapM]. rewrite Hrun. cbn [rmap bind]. rewrite IH1. cbn [bind].
+        rewrite of_bits_enc, Z.mod_small, Z2N.id by lia. reflexivity.
+      + cbn [map fst]. rewrite IH2. reflexivity.
+  Qed.
 
   Lemma field_prim f o nm look bits refs :
     fty_op f = Some o ->
@@ -326,8 +526,8 @@ Section Correct.
     - reflexivity.
     - lia.
     - reflexivity.
-    - constructor; [|constructor]. intros more leaf. cbn [fst snd].
-      apply (prim_field_eval (wt_type st d) f o); assumption.
+    - constructor; [|constructor]. intros more.
+      apply (prim_field_entry (wt_type st d) look f o); assumption.
   Qed.
 
   Lemma field_correct : forall f nm look bits refs,
@@ -339,7 +539,7 @@ Section Correct.
       post (compile_field f nm sid n ns acc k) k [nm] look sid n ns acc ss env w ty tb tr fuel
            (need_field (need_type st d) f).
   Proof.
-    induction f as [w0|m0|m0|w0| | |w0|w0|w0| |m0|m0| | | | | |T a|T a|g IH|dn vf _];
+    induction f as [w0|m0|m0|w0| | |w0|w0|w0| |m0|m0| | | | | |T a|T a|g IH|dn vf IHvf|cv];
       intros nm look bits refs Hwf Hwt Henc sid n ns acc k ss env w ty tb tr fuel Hget Hn Hw Hsid Hfuel;
       try (solve [eapply field_prim; [reflexivity|eassumption..]]).
     - (* FMaybeCell *)
@@ -358,7 +558,7 @@ Section Correct.
         * reflexivity.
         * lia.
         * reflexivity.
-        * constructor; [|constructor]. intros more leaf. cbn [fst snd eval]. symmetry. exact Hx.
+        * constructor; [|constructor]. intros more. apply entry_none. exact Hx.
       + exists 2, (set_slice ss sid (mkTS ty (mkS tb tr))), [PCell c], [1], [(nm, EVar n)], ns.
         split; [|split; [|split; [|split; [|split; [|split; [|split]]]]]].
         * rewrite (run_prim tbl fuel sid OMaybeRefCell _ ss env w _ (PCell c) (mkS tb tr)) by (lia || eassumption || reflexivity).
@@ -372,7 +572,7 @@ Section Correct.
         * reflexivity.
         * lia.
         * reflexivity.
-        * constructor; [|constructor]. intros more leaf. cbn [fst snd eval app]. subst n.
+        * constructor; [|constructor]. intros more. apply entry_var. cbn [app]. subst n.
           rewrite nth_middle. symmetry. exact Hx.
     - (* FType *)
       cbn [need_field] in *. cbn [compile_field]. cbn [wt_field] in Hwt. cbn [enc_field] in Henc.
@@ -388,7 +588,7 @@ Section Correct.
       + reflexivity.
       + lia.
       + reflexivity.
-      + constructor; [|constructor]. intros more leaf. cbn [fst snd eval app]. subst n.
+      + constructor; [|constructor]. intros more. apply entry_var. cbn [app]. subst n.
         rewrite nth_middle. reflexivity.
     - (* FRefType *)
       cbn [need_field] in *. cbn [compile_field]. cbn [wt_field] in Hwt. cbn [enc_field] in Henc.
@@ -415,7 +615,7 @@ Section Correct.
       + reflexivity.
       + lia.
       + reflexivity.
-      + constructor; [|constructor]. intros more leaf. cbn [fst snd eval app]. subst n.
+      + constructor; [|constructor]. intros more. apply entry_var. cbn [app]. subst n.
         change (PCell (Cell ty_ordinary b r) :: look nm :: more)
           with ([PCell (Cell ty_ordinary b r)] ++ look nm :: more).
         rewrite app_assoc. replace (S (List.length env)) with (List.length (env ++ [PCell (Cell ty_ordinary b r)]))
@@ -438,7 +638,7 @@ Section Correct.
         * reflexivity.
         * lia.
         * reflexivity.
-        * constructor; [|constructor]. intros more leaf. cbn [fst snd eval]. symmetry. exact Hx.
+        * constructor; [|constructor]. intros more. apply entry_none. exact Hx.
       + rewrite (enc_maybe_some _ g _ Hx) in Henc.
         destruct (enc_field (enc_type st d) g (look nm)) as [[b r]|e] eqn:Hinner; cbn [bind] in Henc; [|discriminate].
         inversion Henc; subst bits refs; clear Henc.
@@ -466,39 +666,114 @@ Section Correct.
         * cbn [List.length]. lia.
         * exact Hns.
         * exact Hnames.
-        * eapply Forall_impl; [|exact Hev]. intros p Hp more leaf. cbn beta in Hp.
-          rewrite <- (Hp more leaf). rewrite <- !app_assoc. reflexivity.
-    - (* FDict: only the empty dictionary *)
-      cbn [need_field] in *. cbn [compile_field]. cbn [wt_field] in Hwt. rewrite Hwt in Henc.
+        * eapply Forall_impl; [|exact Hev]. intros p Hp more. cbn beta in Hp.
+          specialize (Hp more). rewrite <- !app_assoc in Hp. exact Hp.
+    - (* FDict *)
+      cbn [need_field] in *. cbn [compile_field]. cbn [wt_field] in Hwt. cbn [enc_field] in Henc.
+      cbn [wf_fty] in Hwf. apply andb_prop in Hwf. destruct Hwf as [Hwf Hwfv].
+      apply andb_prop in Hwf. destruct Hwf as [Hn1 Hn2]. apply Nat.leb_le in Hn1. apply Nat.leb_le in Hn2.
+      destruct (look nm) as [z0|b0|bs0|l0|s0| |a0|c0|sl0|cls0 fs0|l0|kvs|l0|l0 ex0|] eqn:Hx; try contradiction.
+      + (* the empty dictionary *)
+        cbn [ok_bits] in Henc. inversion Henc; subst bits refs; clear Henc.
+        exists 2, (set_slice ss sid (mkTS ty (mkS tb tr))), [PNone], [1], [(nm, ENone)], ns.
+        split; [|split; [|split; [|split; [|split; [|split; [|split]]]]]].
+        * rewrite (run_dict_empty tbl fuel sid dn _ _ ss env w _ (mkS tb tr)) by (lia || eassumption || reflexivity).
+          rewrite (run_if tbl _ n 0 _ _ _ _ _ false);
+            [|lia|rewrite <- Hn, nth_middle; reflexivity].
+          cbn [ts_ty List.length]. replace (n + 1) with (S n) by lia.
+          replace (fuel - 1 - 1) with (fuel - 2) by lia. reflexivity.
+        * lia.
+        * apply get_set_same.
+        * intros j Hj _. apply get_set_other. exact Hj.
+        * reflexivity.
+        * lia.
+        * reflexivity.
+        * constructor; [|constructor]. intros more. apply entry_none. exact Hx.
+      + (* a non-empty dictionary: the canonical tree of the encoded pairs *)
+        destruct Hwt as (Hne & Hasc & Hall). apply all_of_Forall in Hall.
+        destruct (mapM (fun kv => rmap (fun p => (enc dn (fst kv), p)) (enc_field (enc_type st d) vf (snd kv))) kvs)
+          as [src|e0] eqn:Hsrc; cbn [bind] in Henc; [|discriminate].
+        destruct (s_patricia (S dn) src) as [e|] eqn:Hpat; [|discriminate]. cbv zeta in Henc.
+        destruct (vtree_ok (canon_kinds (canon_vtree e) dn) dn) eqn:Hvok; [|discriminate].
+        inversion Henc; subst bits refs; clear Henc.
+        set (vt := compile_field vf ""%string 0 0 1 []
+                     (fun _ _ a => DRet (match a with [(_, e1)] => e1 | _ => ENone end))).
+        destruct (dict_run vf dn vt (fuel - 1) kvs src) as [Hmap Hkeys].
+        { (* every value is parsed back by the value tree *)
+          intros kv b r Hin Henc1 Hwt1.
+          destruct (IHvf ""%string (fun _ => snd kv) b r Hwfv Hwt1 Henc1 0 0 1 []
+                      (fun _ _ a => DRet (match a with [(_, e1)] => e1 | _ => ENone end))
+                      [(0, mkTS ty_ordinary (mkS (b ++ []) (r ++ [])))] [] [] ty_ordinary [] [] (fuel - 1))
+            as (c & ss1 & vals & ws & acc1 & ns1 & Hrun & Hc & _ & _ & _ & _ & Hnames & Hev);
+            try (reflexivity || lia).
+          rewrite !app_nil_r in Hrun. fold vt in Hrun.
+          destruct acc1 as [|[nm1 e1] [|q acc2]]; cbn [map] in Hnames; try discriminate.
+          cbn [app] in Hrun. rewrite run_ret in Hrun by lia.
+          exists ss1. rewrite Hrun. f_equal. f_equal.
+          inversion Hev as [|p l Hp _]; subst. destruct (Hp []) as [He _]. cbn [app fst snd] in He.
+          rewrite app_nil_r in He. apply He. }
+        { exact Hsrc. }
+        { exact Hall. }
+        assert (Hrange : Forall (fun k => (0 <= k < 2 ^ Z.of_nat dn)%Z) (map fst kvs)).
+        { apply Forall_map. eapply Forall_impl; [|exact Hall]. intros kv [H1 _]. exact H1. }
+        assert (Hleaves : leaves_of (canon_kinds (canon_vtree e) dn) [] = map rt_conv src).
+        { apply canon_leaves; [| |exact (asc_sorted dn src _ Hkeys Hasc Hrange)|exact Hpat].
+          - rewrite Hkeys. apply asc_nodup; assumption.
+          - exact (keys_length dn src _ Hkeys). }
+        exists 2, (set_slice ss sid (mkTS ty (mkS tb tr))), [PDict kvs], [1], [(nm, EVar n)], ns.
+        split; [|split; [|split; [|split; [|split; [|split; [|split]]]]]].
+        * rewrite (run_dict_some tbl fuel sid dn vt _ ss env w
+                     (mkTS ty (mkS ([true] ++ tb) ([cell_of (canon_kinds (canon_vtree e) dn) dn] ++ tr)))
+                     (map rt_conv src) (mkS tb tr) kvs);
+            [|lia|exact Hget| |exact Hmap].
+          -- rewrite (run_if tbl _ n 0 _ _ _ _ _ true);
+               [|lia|rewrite <- Hn, nth_middle; reflexivity].
+             cbn [ts_ty List.length]. replace (n + 1) with (S n) by lia.
+             replace (fuel - 1 - 1) with (fuel - 2) by lia. reflexivity.
+          -- cbn [ts_s app]. rewrite <- Hleaves.
+             apply load_dict_valid; [lia|exact Hvok|apply canon_cell_ordinary].
+        * lia.
+        * apply get_set_same.
+        * intros j Hj _. apply get_set_other. exact Hj.
+        * reflexivity.
+        * lia.
+        * reflexivity.
+        * constructor; [|constructor]. intros more. apply entry_var. cbn [app]. subst n.
+          rewrite nth_middle. symmetry. exact Hx.
+    - (* FConst *)
+      cbn [need_field] in *. cbn [compile_field]. cbn [wt_field] in Hwt.
       cbn [enc_field ok_bits] in Henc. inversion Henc; subst bits refs; clear Henc.
-      exists 2, (set_slice ss sid (mkTS ty (mkS tb tr))), [PNone], [1], [(nm, ENone)], ns.
+      exists 0, ss, [], [], [(nm, cval_expr cv)], ns.
       split; [|split; [|split; [|split; [|split; [|split; [|split]]]]]].
-      + rewrite (run_dict_empty tbl fuel sid dn _ _ ss env w _ (mkS tb tr)) by (lia || eassumption || reflexivity).
-        rewrite (run_if tbl _ n 0 _ _ _ _ _ false);
-          [|lia|rewrite <- Hn, nth_middle; reflexivity].
-        cbn [ts_ty List.length]. replace (n + 1) with (S n) by lia.
-        replace (fuel - 1 - 1) with (fuel - 2) by lia. reflexivity.
+      + cbn [List.length]. rewrite !app_nil_r, Nat.add_0_r, Nat.sub_0_r. reflexivity.
       + lia.
-      + apply get_set_same.
-      + intros j Hj _. apply get_set_other. exact Hj.
+      + exact Hget.
+      + intros j _ _. reflexivity.
       + reflexivity.
       + lia.
       + reflexivity.
-      + constructor; [|constructor]. intros more leaf. cbn [fst snd eval]. symmetry. exact Hwt.
+      + constructor; [|constructor]. intros more. apply entry_const. exact Hwt.
   Qed.
 
   (* sequencing two segments read from the same sub-slice *)
   Lemma post_seq t1 k1 k names1 names2 look sid n ns acc ss env w ty tb1 tr1 tb tr fuel b1 b2 :
+    acc_ok look env acc ->
     post t1 k1 names1 look sid n ns acc ss env w ty tb1 tr1 fuel b1 ->
     (forall c ss1 vals1 ws1 acc1 ns1,
         c <= b1 -> get_slice ss1 sid = Ok (mkTS ty (mkS tb1 tr1)) ->
         List.length ws1 = List.length vals1 -> ns <= ns1 ->
+        map fst acc1 = names1 -> acc_ok look (env ++ vals1) (acc ++ acc1) ->
         post (k1 (n + List.length vals1) ns1 (acc ++ acc1)) k names2 look sid (n + List.length vals1) ns1
              (acc ++ acc1) ss1 (env ++ vals1) (w ++ ws1) ty tb tr (fuel - c) b2) ->
     post t1 k (names1 ++ names2) look sid n ns acc ss env w ty tb tr fuel (b1 + b2).
   Proof.
-    intros (c1 & ss1 & vals1 & ws1 & acc1 & ns1 & Hrun1 & Hc1 & Hg1 & Hfr1 & Hlen1 & Hns1 & Hnm1 & Hev1) H2.
-    destruct (H2 c1 ss1 vals1 ws1 acc1 ns1 Hc1 Hg1 Hlen1 Hns1)
+    intros Hacc (c1 & ss1 & vals1 & ws1 & acc1 & ns1 & Hrun1 & Hc1 & Hg1 & Hfr1 & Hlen1 & Hns1 & Hnm1 & Hev1) H2.
+    assert (Hacc1 : acc_ok look (env ++ vals1) (acc ++ acc1)).
+    { unfold acc_ok. apply Forall_app. split.
+      - apply acc_ok_ext. exact Hacc.
+      - eapply Forall_impl; [|exact Hev1]. intros p Hp more. cbn beta in Hp.
+        specialize (Hp more). rewrite app_assoc in Hp. exact Hp. }
+    destruct (H2 c1 ss1 vals1 ws1 acc1 ns1 Hc1 Hg1 Hlen1 Hns1 Hnm1 Hacc1)
       as (c2 & ss2 & vals2 & ws2 & acc2 & ns2 & Hrun2 & Hc2 & Hg2 & Hfr2 & Hlen2 & Hns2 & Hnm2 & Hev2).
     exists (c1 + c2), ss2, (vals1 ++ vals2), (ws1 ++ ws2), (acc1 ++ acc2), ns2.
     split; [|split; [|split; [|split; [|split; [|split; [|split]]]]]].
@@ -512,10 +787,10 @@ Section Correct.
     - lia.
     - rewrite map_app. congruence.
     - apply Forall_app. split.
-      + eapply Forall_impl; [|exact Hev1]. intros p Hp more leaf. cbn beta in Hp.
-        rewrite <- (Hp (vals2 ++ more) leaf). rewrite <- !app_assoc. reflexivity.
-      + eapply Forall_impl; [|exact Hev2]. intros p Hp more leaf. cbn beta in Hp.
-        rewrite <- (Hp more leaf). rewrite <- !app_assoc. reflexivity.
+      + eapply Forall_impl; [|exact Hev1]. intros p Hp more. cbn beta in Hp.
+        specialize (Hp (vals2 ++ more)). rewrite <- !app_assoc. exact Hp.
+      + eapply Forall_impl; [|exact Hev2]. intros p Hp more. cbn beta in Hp.
+        specialize (Hp more). rewrite <- !app_assoc in Hp. rewrite <- !app_assoc. exact Hp.
   Qed.
 
   Lemma post_nil k look sid n ns acc ss env w ty tb tr fuel :
@@ -534,11 +809,12 @@ Section Correct.
     forall sid n ns acc k ss env w ty tb tr fuel,
       get_slice ss sid = Ok (mkTS ty (mkS (bits ++ tb) (refs ++ tr))) ->
       List.length env = n -> List.length w = n -> sid < ns -> need_fields (need_type st d) fs <= fuel ->
+      acc_ok look env acc ->
       post (compile_fields fs sid n ns acc k) k (map fst fs) look sid n ns acc ss env w ty tb tr fuel
            (need_fields (need_type st d) fs).
   Proof.
     induction fs as [|[nm f] r IH];
-      intros look bits refs Hwf Hwt Henc sid n ns acc k ss env w ty tb tr fuel Hget Hn Hw Hsid Hfuel.
+      intros look bits refs Hwf Hwt Henc sid n ns acc k ss env w ty tb tr fuel Hget Hn Hw Hsid Hfuel Hacc.
     - cbn [enc_fields] in Henc. inversion Henc; subst bits refs.
       cbn [compile_fields map need_fields fold_right]. apply post_nil. exact Hget.
     - cbn [enc_fields] in Henc. cbn [forallb snd] in Hwf. apply andb_prop in Hwf. destruct Hwf as [Hwf1 Hwf2].
@@ -550,8 +826,9 @@ Section Correct.
       change (need_fields (need_type st d) ((nm, f) :: r))
         with (need_field (need_type st d) f + need_fields (need_type st d) r) in *.
       eapply post_seq.
+      + exact Hacc.
       + eapply field_correct; try eassumption. lia.
-      + intros c ss1 vals1 ws1 acc1 ns1 Hc Hg1 Hlen1 Hns1.
+      + intros c ss1 vals1 ws1 acc1 ns1 Hc Hg1 Hlen1 Hns1 Hnm1 Hacc1.
         eapply IH; try eassumption; try (rewrite app_length; lia); lia.
   Qed.
 
@@ -625,7 +902,46 @@ Section Correct.
     | INamed nm f => compile_field f nm sid n ns acc k1
     | IGroup fs => DOp sid (ORef ns) (compile_fields fs ns (S n) (S ns) acc k1)
     | IConst c bits => DOp sid (chunk_op c) (check_bits n 0 bits (k1 (S n) ns acc))
+    | INamedHex nm hexnm w =>
+        DOp sid (OBytes w) (k1 (S n) ns (acc ++ [(nm, EVar n); (hexnm, EHex (EVar n))]))
+    | IGuard op a b => DGuard op (gexpr_of acc a) (gexpr_of acc b) DFail (k1 n ns acc)
     end.
+
+  (* the integer a constraint operand denotes at run time *)
+  Definition rnum (env : list pv) (g : gexpr) : Z :=
+    match g with GConst z => z | GVar k => numof (nth k env PNone) end.
+
+  Lemma run_guard fuel op ga gb t0 t1 ss env w :
+    1 <= fuel ->
+    (let x := rnum env ga in let y := rnum env gb in
+     match op with GLt => x <? y | GLe => x <=? y | GGt => y <? x | GGe => y <=? x end)%Z = true ->
+    run tbl fuel (DGuard op ga gb t0 t1) ss env w = run tbl (fuel - 1) t1 ss env w.
+  Proof.
+    intros Hfuel Hc. destruct fuel as [|f]; [lia|]. replace (S f - 1) with f by lia.
+    cbn [run]. unfold rnum, numof in Hc. cbv zeta in Hc.
+    destruct ga, gb; cbv zeta; rewrite Hc; reflexivity.
+  Qed.
+
+  Lemma assoc_expr_in nm : forall acc, existsb (String.eqb nm) (map fst acc) = true ->
+    In (nm, assoc_expr nm acc) acc.
+  Proof.
+    induction acc as [|[k e] r IH]; cbn [map existsb assoc_expr fst]; intros H; [discriminate|].
+    rewrite String.eqb_sym in H. destruct (String.eqb_spec k nm) as [->|Hne].
+    - left. reflexivity.
+    - right. apply IH. exact H.
+  Qed.
+
+  Lemma gexpr_num look env acc g :
+    acc_ok look env acc -> gref_bound (map fst acc) g = true ->
+    rnum env (gexpr_of acc g) = gnum look g.
+  Proof.
+    intros Hacc Hb. destruct g as [nm|z]; [|reflexivity].
+    cbn [gref_bound] in Hb. cbn [gexpr_of gnum].
+    pose proof (assoc_expr_in nm acc Hb) as Hin.
+    unfold acc_ok in Hacc. rewrite Forall_forall in Hacc. specialize (Hacc _ Hin []).
+    rewrite app_nil_r in Hacc. destruct Hacc as [_ Hnum]. cbn [fst snd] in Hnum. rewrite <- Hnum.
+    destruct (assoc_expr nm acc) as [i|z|[|]|s|l| |cls fs|l|e|e| |]; reflexivity.
+  Qed.
 
   Lemma compile_items_cons it r sid n ns acc k :
     compile_items (it :: r) sid n ns acc k
@@ -638,11 +954,15 @@ Section Correct.
     forall sid n ns acc k ss env w ty tb tr fuel,
       get_slice ss sid = Ok (mkTS ty (mkS (bits ++ tb) (refs ++ tr))) ->
       List.length env = n -> List.length w = n -> sid < ns -> need_item (need_type st d) it <= fuel ->
+      acc_ok look env acc ->
+      match it with IGuard _ a b => gref_bound (map fst acc) a && gref_bound (map fst acc) b | _ => true end
+      = true ->
       post (compile_item it sid n ns acc k) k (item_names it) look sid n ns acc ss env w ty tb tr fuel
            (need_item (need_type st d) it).
   Proof.
-    intros Hwf Hwt Henc sid n ns acc k ss env w ty tb tr fuel Hget Hn Hw Hsid Hfuel.
-    destruct it as [nm f|fs|c cbits]; cbn [wf_item wt_item enc_item compile_item item_names need_item] in *.
+    intros Hwf Hwt Henc sid n ns acc k ss env w ty tb tr fuel Hget Hn Hw Hsid Hfuel Hacc Hbound.
+    destruct it as [nm f|fs|c cbits|nm hexnm wd|op ga gb];
+      cbn [wf_item wt_item enc_item compile_item item_names need_item] in *.
     - eapply field_correct; eassumption.
     - destruct (enc_fields (enc_type st d) look fs) as [[b r]|e] eqn:Hinner; cbn [bind] in Henc; [|discriminate].
       inversion Henc; subst bits refs; clear Henc.
@@ -655,6 +975,7 @@ Section Correct.
       { rewrite app_length. cbn. lia. }
       { lia. }
       { lia. }
+      { apply acc_ok_ext. exact Hacc. }
       exists (1 + c), ss', (PCell (Cell ty_ordinary b r) :: vals), (1 :: ws), acc', ns'.
       split; [|split; [|split; [|split; [|split; [|split; [|split]]]]]].
       + rewrite (run_ref tbl fuel sid ns _ ss env w _ (Cell ty_ordinary b r) (mkS tb tr))
@@ -669,8 +990,8 @@ Section Correct.
       + cbn [List.length]. lia.
       + lia.
       + exact Hnames.
-      + eapply Forall_impl; [|exact Hev]. intros p Hp more leaf. cbn beta in Hp.
-        rewrite <- (Hp more leaf). rewrite <- !app_assoc. reflexivity.
+      + eapply Forall_impl; [|exact Hev]. intros p Hp more. cbn beta in Hp.
+        specialize (Hp more). rewrite <- !app_assoc in Hp. exact Hp.
     - cbn [ok_bits] in Henc. inversion Henc; subst bits refs; clear Henc. cbn [app] in Hget.
       destruct (chunk_load c cbits (check_bits n 0 cbits (k (S n) ns acc)) sid ss env w ty tb tr fuel Hwf Hget)
         as (val & Hrun & Hview); [lia|].
@@ -689,6 +1010,42 @@ Section Correct.
       + lia.
       + reflexivity.
       + constructor.
+    - (* INamedHex *)
+      destruct (look nm) as [z0|b0|bs|l0|s0| |a0|c0|sl0|cls0 fs0|l0|l0|l0|l0 ex0|] eqn:Hx; try contradiction.
+      destruct Hwt as (Hlen & Hokb & Hhex).
+      cbn [ok_bits] in Henc. inversion Henc; subst bits refs; clear Henc.
+      exists 1, (set_slice ss sid (mkTS ty (mkS tb tr))), [PBytes bs], [8 * wd],
+             [(nm, EVar n); (hexnm, EHex (EVar n))], ns.
+      split; [|split; [|split; [|split; [|split; [|split; [|split]]]]]].
+      + rewrite (run_prim tbl fuel sid (OBytes wd) _ ss env w _ (PBytes bs) (mkS tb tr) Hfuel Hget).
+        * cbn [ts_ty List.length op_width]. replace (n + 1) with (S n) by lia. reflexivity.
+        * cbn [prim_load ts_s app].
+          rewrite load_bytes_app by (congruence || apply bytes_okb_ok; exact Hokb). reflexivity.
+      + lia.
+      + apply get_set_same.
+      + intros j Hj _. apply get_set_other. exact Hj.
+      + reflexivity.
+      + lia.
+      + reflexivity.
+      + constructor; [|constructor; [|constructor]]; intros more; cbn [app]; subst n.
+        * apply entry_var. rewrite nth_middle. symmetry. exact Hx.
+        * apply (entry_hex _ _ _ _ bs); [apply nth_middle|exact Hhex].
+    - (* IGuard *)
+      cbn [ok_bits] in Henc. inversion Henc; subst bits refs; clear Henc.
+      apply andb_prop in Hbound. destruct Hbound as [Hba Hbb].
+      exists 1, ss, [], [], [], ns.
+      split; [|split; [|split; [|split; [|split; [|split; [|split]]]]]].
+      + rewrite (run_guard fuel op _ _ DFail _ ss env w Hfuel).
+        * cbn [List.length]. rewrite !app_nil_r, Nat.add_0_r. reflexivity.
+        * rewrite (gexpr_num look env acc ga Hacc Hba), (gexpr_num look env acc gb Hacc Hbb).
+          exact Hwt.
+      + lia.
+      + exact Hget.
+      + intros j _ _. reflexivity.
+      + reflexivity.
+      + lia.
+      + reflexivity.
+      + constructor.
   Qed.
 
   Lemma items_correct : forall its look bits refs,
@@ -697,11 +1054,13 @@ Section Correct.
     forall sid n ns acc k ss env w ty tb tr fuel,
       get_slice ss sid = Ok (mkTS ty (mkS (bits ++ tb) (refs ++ tr))) ->
       List.length env = n -> List.length w = n -> sid < ns -> need_items (need_type st d) its <= fuel ->
+      acc_ok look env acc -> guards_bound (map fst acc) its = true ->
       post (compile_items its sid n ns acc k) k (items_names its) look sid n ns acc ss env w ty tb tr fuel
            (need_items (need_type st d) its).
   Proof.
     induction its as [|it r IH];
-      intros look bits refs Hwf Hwt Henc sid n ns acc k ss env w ty tb tr fuel Hget Hn Hw Hsid Hfuel.
+      intros look bits refs Hwf Hwt Henc sid n ns acc k ss env w ty tb tr fuel Hget Hn Hw Hsid Hfuel
+             Hacc Hgb.
     - cbn [enc_items] in Henc. inversion Henc; subst bits refs.
       cbn [compile_items items_names flat_map need_items fold_right]. apply post_nil. exact Hget.
     - cbn [enc_items] in Henc. cbn [forallb] in Hwf. apply andb_prop in Hwf. destruct Hwf as [Hwf1 Hwf2].
@@ -713,9 +1072,587 @@ Section Correct.
       change (items_names (it :: r)) with (item_names it ++ items_names r).
       change (need_items (need_type st d) (it :: r))
         with (need_item (need_type st d) it + need_items (need_type st d) r) in *.
+      cbn [guards_bound] in Hgb. apply andb_prop in Hgb. destruct Hgb as [Hgb1 Hgb2].
       eapply post_seq.
+      + exact Hacc.
       + eapply item_correct; try eassumption. lia.
-      + intros c ss1 vals1 ws1 acc1 ns1 Hc Hg1 Hlen1 Hns1.
-        eapply IH; try eassumption; try (rewrite app_length; lia); lia.
+      + intros c ss1 vals1 ws1 acc1 ns1 Hc Hg1 Hlen1 Hns1 Hnm1 Hacc1.
+        eapply IH; try eassumption; try (rewrite app_length; lia); try lia.
+        rewrite map_app, Hnm1. exact Hgb2.
+  Qed.
+
+  (* ---- constructors ---- *)
+
+  (* the tree runs to completion with value v, leaving fin in sub-slice 0 *)
+  Definition finishes (t : dtree) (ss : slices) (env : list pv) (w : list nat) (fuel : nat) (v : pv)
+      (fin : tslice) : Prop :=
+    exists ss', run tbl fuel t ss env w = Ok (v, ss') /\ get_slice ss' 0 = Ok fin.
+
+  Lemma cval_match_eq cv x : cval_matchb cv x = true ->
+    forall env leaf, eval (cval_expr cv) env leaf = x.
+  Proof.
+    destruct cv, x; cbn [cval_matchb]; intros H env leaf; try discriminate; cbn [cval_expr eval].
+    - apply String.eqb_eq in H. congruence.
+    - reflexivity.
+    - apply eqb_prop in H. congruence.
+    - apply Z.eqb_eq in H. congruence.
+  Qed.
+
+  Lemma map_eval_look (look : string -> pv) E leaf (l : list (string * dexpr)) :
+    Forall (fun p => eval (snd p) E leaf = look (fst p)) l ->
+    map (fun '(n, x) => (n, eval x E leaf)) l = map (fun nm => (nm, look nm)) (map fst l).
+  Proof.
+    induction 1 as [|[nm e] r Hp Hr IH]; [reflexivity|].
+    cbn [map fst snd] in *. rewrite Hp, IH. reflexivity.
+  Qed.
+
+  Lemma ctor_correct c v bits refs :
+    forallb wf_item (c_items c) = true -> guards_bound [] (c_items c) = true ->
+    (c_ret c = RNone -> c_items c = []) ->
+    (c_ret c = RSame -> exists nm f, c_items c = [INamed nm f]) ->
+    ctor_matches c v = true -> wt_ctor (wt_type st d) c v ->
+    enc_items (enc_type st d) (ctor_look c v) (c_items c) = Ok (bits, refs) ->
+    forall env w ty tb tr fuel, List.length w = List.length env -> need_ctor (need_type st d) c <= fuel ->
+      finishes (compile_ctor c (List.length env)) [(0, mkTS ty (mkS (bits ++ tb) (refs ++ tr)))] env w fuel v
+               (mkTS ty (mkS tb tr)).
+  Proof.
+    intros Hwf Hgb Hnone Hsame Hmatch [Hshape Hwt] Henc env w ty tb tr fuel Hw Hfuel.
+    unfold need_ctor in Hfuel. unfold compile_ctor.
+    destruct (items_correct (c_items c) (ctor_look c v) bits refs Hwf Hwt Henc 0 (List.length env) 1 []
+                (fun _ _ acc => DRet (ret_expr (c_ret c) acc))
+                [(0, mkTS ty (mkS (bits ++ tb) (refs ++ tr)))] env w ty tb tr fuel)
+      as (c0 & ss' & vals & ws & acc' & ns' & Hrun & Hc & Hg & Hfr & Hlen & Hns & Hnames & Hev);
+      try (reflexivity || lia || assumption || constructor).
+    exists ss'. split; [|exact Hg].
+    rewrite Hrun. rewrite run_ret by lia. f_equal. f_equal. cbn [app].
+    set (leaf := match get_slice ss' 0 with Ok s => PSlice (ts_s s) | Err _ => PNone end).
+    unfold ctor_look in Hev. destruct (c_ret c) as [cls consts| |] eqn:Hret.
+    - cbn [ret_expr eval].
+      rewrite (map_eval_look (field_of v)).
+      + rewrite sort_names_fst. rewrite map_app, Hnames.
+        replace (map fst (map (fun '(nm, cv) => (nm, cval_expr cv)) consts)) with (map fst consts).
+        * symmetry. exact Hshape.
+        * rewrite map_map. apply map_ext. intros [nm cv]. reflexivity.
+      + apply sort_Forall. apply Forall_app. split.
+        * unfold ctor_matches in Hmatch. rewrite Hret in Hmatch.
+          destruct v as [| | | | | | | | |cls' fs| | | | |]; try discriminate.
+          apply andb_prop in Hmatch. destruct Hmatch as [_ Hconsts].
+          rewrite forallb_forall in Hconsts. apply Forall_forall. intros [nm e] Hin.
+          apply in_map_iff in Hin. destruct Hin as ([nm' cv] & Heq & Hin). inversion Heq; subst nm e.
+          cbn [fst snd field_of]. apply cval_match_eq. exact (Hconsts _ Hin).
+        * eapply Forall_impl; [|exact Hev]. intros p Hp. cbn beta in Hp.
+          destruct (Hp []) as [He _]. rewrite app_nil_r in He. apply He.
+    - cbn [ret_expr eval]. symmetry. exact Hshape.
+    - destruct (Hsame eq_refl) as (nm & f & Hits). rewrite Hits in Hnames.
+      cbn [items_names flat_map item_names app] in Hnames.
+      destruct acc' as [|[nm' e] [|q acc'']]; cbn [map] in Hnames; try discriminate.
+      cbn [ret_expr]. inversion Hev as [|p l Hp _]; subst.
+      destruct (Hp []) as [He _]. rewrite app_nil_r in He. cbn [fst snd] in He. apply He.
+  Qed.
+
+  (* ---- the tag tries ---- *)
+
+  Lemma in_sub_tags x t c cs : In (x :: t, c) cs -> In (t, c) (sub_tags x cs).
+  Proof.
+    intros Hin. unfold sub_tags. apply in_flat_map. exists (x :: t, c). split; [exact Hin|].
+    rewrite eqb_reflx. left. reflexivity.
+  Qed.
+
+  Lemma find_done_none cs c : find_done cs = None -> ~ In ([], c) cs.
+  Proof.
+    unfold find_done. intros H Hin.
+    destruct (find (fun '(t, _) => match t with [] => true | _ => false end) cs) as [[t' c']|] eqn:Hf;
+      [discriminate|].
+    pose proof (find_none _ _ Hf _ Hin) as Hx. discriminate.
+  Qed.
+
+  Lemma trie_done_single fuel cs t c c' :
+    trie_ok (S fuel) cs = true -> In (t, c) cs -> find_done cs = Some c' -> cs = [([], c)].
+  Proof.
+    intros Hok Hin Hfd. destruct cs as [|p cs']; [contradiction|].
+    cbn [trie_ok] in Hok. rewrite Hfd in Hok. destruct cs' as [|q cs'']; [|discriminate].
+    destruct Hin as [->|[]]. destruct t as [|x t]; [reflexivity|].
+    cbn in Hfd. discriminate.
+  Qed.
+
+  Lemma trie_bits_correct : forall fuel cs t c,
+    trie_ok fuel cs = true -> In (t, c) cs ->
+    forall env w ty b r rfuel needc v fin,
+      List.length w = List.length env -> 2 * List.length t + needc <= rfuel ->
+      (forall env' w' rf, List.length w' = List.length env' -> needc <= rf ->
+         finishes (compile_ctor c (List.length env')) [(0, mkTS ty (mkS b r))] env' w' rf v fin) ->
+      finishes (trie_bits fuel cs (List.length env)) [(0, mkTS ty (mkS (t ++ b) r))] env w rfuel v fin.
+  Proof.
+    induction fuel as [|f IH]; intros cs t c Hok Hin env w ty b r rfuel needc v fin Hw Hfuel Hbody;
+      [discriminate|].
+    destruct (find_done cs) as [c'|] eqn:Hfd.
+    - pose proof (trie_done_single f cs t c c' Hok Hin Hfd) as ->.
+      destruct Hin as [Heq|[]]. inversion Heq; subst t.
+      cbn [trie_bits find_done find]. cbn [app]. apply Hbody; [exact Hw|lia].
+    - destruct t as [|x t]; [exfalso; exact (find_done_none cs c Hfd Hin)|].
+      destruct cs as [|p cs']; [contradiction|]. remember (p :: cs') as cs eqn:Hcs.
+      assert (Hok' : trie_ok f (sub_tags false cs) && trie_ok f (sub_tags true cs) = true).
+      { rewrite Hcs in Hok. cbn [trie_ok] in Hok. rewrite <- Hcs in Hok. rewrite Hfd in Hok. exact Hok. }
+      apply andb_prop in Hok'. destruct Hok' as [Hok0 Hok1].
+      assert (Htree : trie_bits (S f) cs (List.length env)
+                      = DOp 0 OBit (DIf (List.length env) 0
+                                      (trie_bits f (sub_tags false cs) (S (List.length env)))
+                                      (trie_bits f (sub_tags true cs) (S (List.length env))))).
+      { rewrite Hcs. cbn [trie_bits]. rewrite <- Hcs. rewrite Hfd. reflexivity. }
+      rewrite Htree. clear Htree. cbn [List.length app] in *.
+      assert (Hrec : finishes (trie_bits f (sub_tags x cs) (List.length (env ++ [PBool x])))
+                       [(0, mkTS ty (mkS (t ++ b) r))] (env ++ [PBool x]) (w ++ [1]) (rfuel - 1 - 1) v fin).
+      { apply (IH (sub_tags x cs) t c) with (needc := needc).
+        - destruct x; assumption.
+        - apply in_sub_tags. exact Hin.
+        - rewrite !app_length. cbn. lia.
+        - lia.
+        - exact Hbody. }
+      destruct Hrec as (ss' & Hrun & Hget). exists ss'. split; [|exact Hget].
+      rewrite (run_prim tbl rfuel 0 OBit _ _ env w (mkTS ty (mkS (x :: t ++ b) r)) (PBool x) (mkS (t ++ b) r))
+        by (lia || reflexivity).
+      rewrite (run_if tbl _ (List.length env) 0 _ _ _ _ _ x);
+        [|lia|rewrite nth_middle; reflexivity].
+      rewrite app_length in Hrun. cbn [List.length] in Hrun. rewrite Nat.add_1_r in Hrun.
+      destruct x; exact Hrun.
+  Qed.
+
+  Lemma trie_chunk_correct : forall fuel cs t c,
+    trie_ok fuel cs = true -> In (t, c) cs ->
+    forall pre vidx ss env w rfuel needc v fin,
+      bits_of_pv (nth vidx env PNone) (nth vidx w 1) = pre ++ t ->
+      List.length t + needc <= rfuel ->
+      (forall rf, needc <= rf -> finishes (compile_ctor c (S vidx)) ss env w rf v fin) ->
+      finishes (trie_chunk fuel cs vidx (List.length pre)) ss env w rfuel v fin.
+  Proof.
+    induction fuel as [|f IH]; intros cs t c Hok Hin pre vidx ss env w rfuel needc v fin Hbits Hfuel Hbody;
+      [discriminate|].
+    destruct (find_done cs) as [c'|] eqn:Hfd.
+    - pose proof (trie_done_single f cs t c c' Hok Hin Hfd) as ->.
+      destruct Hin as [Heq|[]]. inversion Heq; subst t.
+      cbn [trie_chunk find_done find]. apply Hbody. lia.
+    - destruct t as [|x t]; [exfalso; exact (find_done_none cs c Hfd Hin)|].
+      destruct cs as [|p cs']; [contradiction|]. remember (p :: cs') as cs eqn:Hcs.
+      assert (Hok' : trie_ok f (sub_tags false cs) && trie_ok f (sub_tags true cs) = true).
+      { rewrite Hcs in Hok. cbn [trie_ok] in Hok. rewrite <- Hcs in Hok. rewrite Hfd in Hok. exact Hok. }
+      apply andb_prop in Hok'. destruct Hok' as [Hok0 Hok1].
+      assert (Htree : trie_chunk (S f) cs vidx (List.length pre)
+                      = DIf vidx (List.length pre)
+                          (trie_chunk f (sub_tags false cs) vidx (S (List.length pre)))
+                          (trie_chunk f (sub_tags true cs) vidx (S (List.length pre)))).
+      { rewrite Hcs. cbn [trie_chunk]. rewrite <- Hcs. rewrite Hfd. reflexivity. }
+      rewrite Htree. clear Htree. cbn [List.length] in *.
+      assert (Hrec : finishes (trie_chunk f (sub_tags x cs) vidx (List.length (pre ++ [x])))
+                       ss env w (rfuel - 1) v fin).
+      { apply (IH (sub_tags x cs) t c) with (needc := needc).
+        - destruct x; assumption.
+        - apply in_sub_tags. exact Hin.
+        - rewrite <- app_assoc. exact Hbits.
+        - lia.
+        - exact Hbody. }
+      destruct Hrec as (ss' & Hrun & Hget). exists ss'. split; [|exact Hget].
+      rewrite (run_if tbl rfuel vidx (List.length pre) _ _ ss env w x);
+        [|lia|rewrite Hbits; apply nth_middle].
+      rewrite app_length in Hrun. cbn [List.length] in Hrun. rewrite Nat.add_1_r in Hrun.
+      destruct x; exact Hrun.
+  Qed.
+
+  (* ---- layouts ---- *)
+
+  Lemma tag_fuel_bound cs c : In c cs -> List.length (c_tag c) < tag_fuel cs.
+  Proof.
+    unfold tag_fuel. induction cs as [|c' r IH]; intros Hin; [contradiction|].
+    cbn [fold_right]. destruct Hin as [->|Hin]; [lia|]. specialize (IH Hin). lia.
+  Qed.
+
+  Lemma need_ctor_bound nty cs c : In c cs ->
+    need_ctor nty c <= fold_right (fun c m => Nat.max (need_ctor nty c) m) 0 cs.
+  Proof.
+    induction cs as [|c' r IH]; intros Hin; [contradiction|].
+    cbn [fold_right]. destruct Hin as [->|Hin]; [lia|]. specialize (IH Hin). lia.
+  Qed.
+
+  Lemma layout_correct L v bits refs :
+    wf_layout L = true -> wt_layout (wt_type st d) L v -> enc_layout (enc_type st d) L v = Ok (bits, refs) ->
+    forall fuel ty tb tr, need_layout (need_type st d) L <= fuel ->
+      finishes (compile L) [(0, mkTS ty (mkS (bits ++ tb) (refs ++ tr)))] [] [] fuel v (mkTS ty (mkS tb tr)).
+  Proof.
+    unfold wf_layout, wt_layout, enc_layout, need_layout.
+    intros Hwf Hwt Henc fuel ty tb tr Hfuel.
+    apply andb_prop in Hwf. destruct Hwf as [Hctors Htrie].
+    destruct (find (fun c => ctor_matches c v) (t_ctors L)) as [c|] eqn:Hfind; [|contradiction].
+    apply find_some in Hfind. destruct Hfind as [Hin Hmatch].
+    rewrite forallb_forall in Hctors. specialize (Hctors c Hin). unfold wf_ctor in Hctors.
+    apply andb_prop in Hctors. destruct Hctors as [Hctors Hmode].
+    apply andb_prop in Hctors. destruct Hctors as [Hctors Hnone].
+    apply andb_prop in Hctors. destruct Hctors as [Hitems Hgb].
+    unfold enc_ctor in Henc.
+    destruct (enc_items (enc_type st d) (ctor_look c v) (c_items c)) as [[b0 r0]|e] eqn:Hinner;
+      cbn [bind] in Henc; [|discriminate].
+    inversion Henc; subst bits refs; clear Henc.
+    pose proof (tag_fuel_bound _ _ Hin) as Htag.
+    pose proof (need_ctor_bound (need_type st d) _ _ Hin) as Hneed.
+    assert (HinT : In (c_tag c, c) (tagged_of (t_ctors L))).
+    { unfold tagged_of. apply in_map_iff. exists c. split; [reflexivity|exact Hin]. }
+    assert (Hnone' : c_ret c = RNone -> c_items c = []).
+    { intros E. rewrite E in Hnone. destruct (c_items c); [reflexivity|discriminate]. }
+    assert (Hsame' : c_ret c = RSame -> exists nm f, c_items c = [INamed nm f]).
+    { intros E. rewrite E in Hnone. destruct (c_items c) as [|[nm f| | | |] [|it r]]; try discriminate.
+      exists nm, f. reflexivity. }
+    unfold compile. destruct (t_mode L) as [|ck].
+    - rewrite <- app_assoc. change 0 with (List.length (@nil pv)).
+      apply (trie_bits_correct _ _ _ c Htrie HinT [] [] ty (b0 ++ tb) (r0 ++ tr) fuel
+               (need_ctor (need_type st d) c)); [reflexivity|lia|].
+      intros env' w' rf Hw' Hrf.
+      apply (ctor_correct c v b0 r0 Hitems Hgb Hnone' Hsame' Hmatch Hwt Hinner env' w' ty tb tr rf Hw' Hrf).
+    - rewrite <- app_assoc.
+      destruct (chunk_load ck (c_tag c) (trie_chunk (tag_fuel (t_ctors L)) (tagged_of (t_ctors L)) 0 0) 0
+                  [(0, mkTS ty (mkS (c_tag c ++ b0 ++ tb) (r0 ++ tr)))] [] [] ty (b0 ++ tb) (r0 ++ tr) fuel
+                  Hmode eq_refl) as (val & Hrun & Hview); [lia|].
+      cbn [set_slice Nat.eqb app] in Hrun.
+      assert (Hfin : finishes (trie_chunk (tag_fuel (t_ctors L)) (tagged_of (t_ctors L)) 0 (List.length (@nil bool)))
+                       [(0, mkTS ty (mkS (b0 ++ tb) (r0 ++ tr)))] [val] [chunk_width ck] (fuel - 1) v
+                       (mkTS ty (mkS tb tr))).
+      { apply (trie_chunk_correct _ _ _ c Htrie HinT [] 0 _ [val] [chunk_width ck] (fuel - 1)
+                 (need_ctor (need_type st d) c)).
+        - exact Hview.
+        - lia.
+        - intros rf Hrf.
+          apply (ctor_correct c v b0 r0 Hitems Hgb Hnone' Hsame' Hmatch Hwt Hinner [val] [chunk_width ck] ty tb tr rf
+                   eq_refl Hrf). }
+      destruct Hfin as (ss' & Hrun' & Hget). exists ss'. split; [|exact Hget].
+      rewrite Hrun. exact Hrun'.
   Qed.
 End Correct.
+
+(* ------------------------------------------------------------------------------------------------ *)
+(* The generic theorem                                                                               *)
+(* ------------------------------------------------------------------------------------------------ *)
+
+(* the decision-tree table implements the layout table *)
+Definition agree (tbl : table) (st : stable) : Prop :=
+  forall T a L, slookup st T a = Some L -> lookup tbl T a = Some (compile L).
+
+Lemma slookup_in st : forall T a L, slookup st T a = Some L -> exists T' a', In (T', a', L) st.
+Proof.
+  induction st as [|[[T' a'] L'] r IH]; intros T a L H; cbn [slookup] in H; [discriminate|].
+  destruct (_ && _)%bool.
+  - inversion H; subst. exists T', a'. left. reflexivity.
+  - destruct (IH _ _ _ H) as (T1 & a1 & Hin). exists T1, a1. right. exact Hin.
+Qed.
+
+Lemma wf_table_lookup st T a L : wf_table st = true -> slookup st T a = Some L -> wf_layout L = true.
+Proof.
+  unfold wf_table. intros Hwf Hl. destruct (slookup_in _ _ _ _ Hl) as (T' & a' & Hin).
+  rewrite forallb_forall in Hwf. exact (Hwf _ Hin).
+Qed.
+
+Theorem types_correct tbl st : wf_table st = true -> agree tbl st -> forall d, ty_ok tbl st d.
+Proof.
+  intros Hwf Hagree. induction d as [|d IH]; intros T a x bits refs Hwt Henc; [contradiction|].
+  cbn [wt_type enc_type] in Hwt, Henc.
+  destruct (slookup st T a) as [L|] eqn:Hl; [|contradiction].
+  exists (compile L). split; [apply Hagree; exact Hl|].
+  intros fuel ty tb tr Hfuel. cbn [need_type] in Hfuel. rewrite Hl in Hfuel.
+  apply (layout_correct tbl st d IH L x bits refs (wf_table_lookup _ _ _ _ Hwf Hl) Hwt Henc fuel ty tb tr Hfuel).
+Qed.
+
+(* compile_correct: for every layout L of a well-formed table whose compiled trees the table tbl holds,
+   every well-typed value v, and every continuation tb/tr of the cell: running compile L on the encoding of
+   v followed by tb/tr returns v and leaves exactly tb/tr in the slice. *)
+Theorem compile_correct tbl st d L v bits refs :
+  forall (Hwf_table : wf_table st = true) (Hagree : agree tbl st) (Hwf_layout : wf_layout L = true)
+         (Hwt : wt_layout (wt_type st d) L v)
+         (Henc : enc_layout (enc_type st d) L v = Ok (bits, refs)),
+  forall fuel ty tb tr, need_layout (need_type st d) L <= fuel ->
+    exists ss', run tbl fuel (compile L) [(0, mkTS ty (mkS (bits ++ tb) (refs ++ tr)))] [] [] = Ok (v, ss')
+                /\ get_slice ss' 0 = Ok (mkTS ty (mkS tb tr)).
+Proof.
+  intros Hwf_table Hagree Hwf_layout Hwt Henc fuel ty tb tr Hfuel.
+  exact (layout_correct tbl st d (types_correct tbl st Hwf_table Hagree d) L v bits refs Hwf_layout Hwt Henc
+           fuel ty tb tr Hfuel).
+Qed.
+
+(* the same for the entry point run_type *)
+Theorem run_type_correct tbl st T a L v bits refs :
+  forall (Hwf_table : wf_table st = true) (Hagree : agree tbl st) (Hwf_layout : wf_layout L = true)
+         (Hlookup : lookup tbl T a = Some (compile L))
+         (Hwt : wt st L v) (Henc : encode st L v = Ok (bits, refs)),
+  forall fuel ty tb tr, need st L <= fuel ->
+    run_type tbl fuel T a (Cell ty (bits ++ tb) (refs ++ tr)) = Ok (v, mkS tb tr).
+Proof.
+  unfold wt, encode, need. intros Hwf_table Hagree Hwf_layout Hlookup Hwt Henc fuel ty tb tr Hfuel.
+  destruct (compile_correct tbl st tdepth L v bits refs Hwf_table Hagree Hwf_layout Hwt Henc fuel ty tb tr Hfuel)
+    as (ss' & Hrun & Hget).
+  unfold run_type. rewrite Hlookup. cbn [cell_slice]. rewrite Hrun. cbn [bind]. rewrite Hget. reflexivity.
+Qed.
+
+(* ------------------------------------------------------------------------------------------------ *)
+(* What the library does (Gen/TlbImpl.v) IS the compilation of what block.tlb says (Spec/BlockTlb.v)  *)
+(* ------------------------------------------------------------------------------------------------ *)
+From PTQ Require Import Gen.TlbImpl Spec.BlockTlb.
+
+Lemma zlist_eq : forall a b : list Z, List.length a = List.length b ->
+  forallb (fun p => Z.eqb (fst p) (snd p)) (combine a b) = true -> a = b.
+Proof.
+  induction a as [|x a IH]; intros [|y b] Hlen H; cbn [List.length] in Hlen; try discriminate; [reflexivity|].
+  cbn [combine forallb fst snd] in H. apply andb_prop in H. destruct H as [H1 H2].
+  apply Z.eqb_eq in H1. subst y. f_equal. apply IH; [lia|exact H2].
+Qed.
+
+Lemma agree_of_Forall tbl st :
+  Forall (fun e => lookup tbl (fst (fst e)) (snd (fst e)) = Some (compile (snd e))) st -> agree tbl st.
+Proof.
+  induction 1 as [|[[T' a'] L'] r Hhd Htl IH]; intros T a L Hl; cbn [slookup] in Hl; [discriminate|].
+  destruct ((T' =? T)%string && (List.length a' =? List.length a) &&
+            forallb (fun p => Z.eqb (fst p) (snd p)) (combine a' a))%bool eqn:E.
+  - inversion Hl; subst L'. apply andb_prop in E. destruct E as [E E3]. apply andb_prop in E.
+    destruct E as [E1 E2]. apply String.eqb_eq in E1. apply Nat.eqb_eq in E2.
+    pose proof (zlist_eq _ _ E2 E3). subst. exact Hhd.
+  - apply IH. exact Hl.
+Qed.
+
+(* one computational check per type: the tree traced from the library's deserialize method is, node for
+   node, the compilation of the layout transcribed from block.tlb *)
+Lemma impl_AccStatusChange_is_spec : impl_AccStatusChange = compile spec_AccStatusChange.
+Proof. vm_compute. reflexivity. Qed.
+Lemma impl_AccountStatus_is_spec : impl_AccountStatus = compile spec_AccountStatus.
+Proof. vm_compute. reflexivity. Qed.
+Lemma impl_ComputeSkipReason_is_spec : impl_ComputeSkipReason = compile spec_ComputeSkipReason.
+Proof. vm_compute. reflexivity. Qed.
+Lemma impl_TickTock_is_spec : impl_TickTock = compile spec_TickTock.
+Proof. vm_compute. reflexivity. Qed.
+Lemma impl_ExtraCurrencyCollection_is_spec : impl_ExtraCurrencyCollection = compile spec_ExtraCurrencyCollection.
+Proof. vm_compute. reflexivity. Qed.
+Lemma impl_CurrencyCollection_is_spec : impl_CurrencyCollection = compile spec_CurrencyCollection.
+Proof. vm_compute. reflexivity. Qed.
+Lemma impl_StorageUsed_is_spec : impl_StorageUsed = compile spec_StorageUsed.
+Proof. vm_compute. reflexivity. Qed.
+Lemma impl_StorageUsedShort_is_spec : impl_StorageUsedShort = compile spec_StorageUsedShort.
+Proof. vm_compute. reflexivity. Qed.
+Lemma impl_StorageInfo_is_spec : impl_StorageInfo = compile spec_StorageInfo.
+Proof. vm_compute. reflexivity. Qed.
+Lemma impl_TrStoragePhase_is_spec : impl_TrStoragePhase = compile spec_TrStoragePhase.
+Proof. vm_compute. reflexivity. Qed.
+Lemma impl_TrCreditPhase_is_spec : impl_TrCreditPhase = compile spec_TrCreditPhase.
+Proof. vm_compute. reflexivity. Qed.
+Lemma impl_TrComputePhase_is_spec : impl_TrComputePhase = compile spec_TrComputePhase.
+Proof. vm_compute. reflexivity. Qed.
+Lemma impl_TrBouncePhase_is_spec : impl_TrBouncePhase = compile spec_TrBouncePhase.
+Proof. vm_compute. reflexivity. Qed.
+Lemma impl_TrActionPhase_is_spec : impl_TrActionPhase = compile spec_TrActionPhase.
+Proof. vm_compute. reflexivity. Qed.
+Lemma impl_ExtBlkRef_is_spec : impl_ExtBlkRef = compile spec_ExtBlkRef.
+Proof. vm_compute. reflexivity. Qed.
+Lemma impl_BlkMasterInfo_is_spec : impl_BlkMasterInfo = compile spec_BlkMasterInfo.
+Proof. vm_compute. reflexivity. Qed.
+Lemma impl_GlobalVersion_is_spec : impl_GlobalVersion = compile spec_GlobalVersion.
+Proof. vm_compute. reflexivity. Qed.
+Lemma impl_ShardIdent_is_spec : impl_ShardIdent = compile spec_ShardIdent.
+Proof. vm_compute. reflexivity. Qed.
+Lemma impl_FutureSplitMerge_is_spec : impl_FutureSplitMerge = compile spec_FutureSplitMerge.
+Proof. vm_compute. reflexivity. Qed.
+Lemma impl_SplitMergeInfo_is_spec : impl_SplitMergeInfo = compile spec_SplitMergeInfo.
+Proof. vm_compute. reflexivity. Qed.
+Lemma impl_HashUpdate_is_spec : impl_HashUpdate = compile spec_HashUpdate.
+Proof. vm_compute. reflexivity. Qed.
+Lemma impl_IntermediateAddress_is_spec : impl_IntermediateAddress = compile spec_IntermediateAddress.
+Proof. vm_compute. reflexivity. Qed.
+Lemma impl_MsgMetadata_is_spec : impl_MsgMetadata = compile spec_MsgMetadata.
+Proof. vm_compute. reflexivity. Qed.
+Lemma impl_InternalMsgInfo_is_spec : impl_InternalMsgInfo = compile spec_InternalMsgInfo.
+Proof. vm_compute. reflexivity. Qed.
+Lemma impl_ExternalMsgInfo_is_spec : impl_ExternalMsgInfo = compile spec_ExternalMsgInfo.
+Proof. vm_compute. reflexivity. Qed.
+Lemma impl_ExternalOutMsgInfo_is_spec : impl_ExternalOutMsgInfo = compile spec_ExternalOutMsgInfo.
+Proof. vm_compute. reflexivity. Qed.
+Lemma impl_StateInit_is_spec : impl_StateInit = compile spec_StateInit.
+Proof. vm_compute. reflexivity. Qed.
+Lemma impl_SigPubKey_is_spec : impl_SigPubKey = compile spec_SigPubKey.
+Proof. vm_compute. reflexivity. Qed.
+Lemma impl_CatchainConfig_is_spec : impl_CatchainConfig = compile spec_CatchainConfig.
+Proof. vm_compute. reflexivity. Qed.
+Lemma impl_ValidatorDescr_is_spec : impl_ValidatorDescr = compile spec_ValidatorDescr.
+Proof. vm_compute. reflexivity. Qed.
+Lemma impl_TransactionOrdinary_is_spec : impl_TransactionOrdinary = compile spec_TransactionOrdinary.
+Proof. vm_compute. reflexivity. Qed.
+Lemma impl_TransactionStorage_is_spec : impl_TransactionStorage = compile spec_TransactionStorage.
+Proof. vm_compute. reflexivity. Qed.
+Lemma impl_TransactionTickTock_is_spec : impl_TransactionTickTock = compile spec_TransactionTickTock.
+Proof. vm_compute. reflexivity. Qed.
+Lemma impl_TransactionSplitPrepare_is_spec : impl_TransactionSplitPrepare = compile spec_TransactionSplitPrepare.
+Proof. vm_compute. reflexivity. Qed.
+Lemma impl_TransactionSplitInstall_is_spec : impl_TransactionSplitInstall = compile spec_TransactionSplitInstall.
+Proof. vm_compute. reflexivity. Qed.
+Lemma impl_TransactionMergePrepare_is_spec : impl_TransactionMergePrepare = compile spec_TransactionMergePrepare.
+Proof. vm_compute. reflexivity. Qed.
+Lemma impl_TransactionMergeInstall_is_spec : impl_TransactionMergeInstall = compile spec_TransactionMergeInstall.
+Proof. vm_compute. reflexivity. Qed.
+Lemma impl_AccountState_is_spec : impl_AccountState = compile spec_AccountState.
+Proof. vm_compute. reflexivity. Qed.
+Lemma impl_AccountStorage_is_spec : impl_AccountStorage = compile spec_AccountStorage.
+Proof. vm_compute. reflexivity. Qed.
+Lemma impl_Account_is_spec : impl_Account = compile spec_Account.
+Proof. vm_compute. reflexivity. Qed.
+Lemma impl_DepthBalanceInfo_is_spec : impl_DepthBalanceInfo = compile spec_DepthBalanceInfo.
+Proof. vm_compute. reflexivity. Qed.
+Lemma impl_ImportFees_is_spec : impl_ImportFees = compile spec_ImportFees.
+Proof. vm_compute. reflexivity. Qed.
+Lemma impl_LibRef_is_spec : impl_LibRef = compile spec_LibRef.
+Proof. vm_compute. reflexivity. Qed.
+Lemma impl_MsgEnvelope_is_spec : impl_MsgEnvelope = compile spec_MsgEnvelope.
+Proof. vm_compute. reflexivity. Qed.
+Lemma impl_ValidatorInfo_is_spec : impl_ValidatorInfo = compile spec_ValidatorInfo.
+Proof. vm_compute. reflexivity. Qed.
+Lemma impl_KeyMaxLt_is_spec : impl_KeyMaxLt = compile spec_KeyMaxLt.
+Proof. vm_compute. reflexivity. Qed.
+Lemma impl_KeyExtBlkRef_is_spec : impl_KeyExtBlkRef = compile spec_KeyExtBlkRef.
+Proof. vm_compute. reflexivity. Qed.
+Lemma impl_Counters_is_spec : impl_Counters = compile spec_Counters.
+Proof. vm_compute. reflexivity. Qed.
+Lemma impl_CreatorStats_is_spec : impl_CreatorStats = compile spec_CreatorStats.
+Proof. vm_compute. reflexivity. Qed.
+Lemma impl_ConfigParam6_is_spec : impl_ConfigParam6 = compile spec_ConfigParam6.
+Proof. vm_compute. reflexivity. Qed.
+Lemma impl_ConfigParam7_is_spec : impl_ConfigParam7 = compile spec_ConfigParam7.
+Proof. vm_compute. reflexivity. Qed.
+Lemma impl_ConfigProposalSetup_is_spec : impl_ConfigProposalSetup = compile spec_ConfigProposalSetup.
+Proof. vm_compute. reflexivity. Qed.
+Lemma impl_ConfigVotingSetup_is_spec : impl_ConfigVotingSetup = compile spec_ConfigVotingSetup.
+Proof. vm_compute. reflexivity. Qed.
+Lemma impl_WcSplitMergeTimings_is_spec : impl_WcSplitMergeTimings = compile spec_WcSplitMergeTimings.
+Proof. vm_compute. reflexivity. Qed.
+Lemma impl_ComplaintPricing_is_spec : impl_ComplaintPricing = compile spec_ComplaintPricing.
+Proof. vm_compute. reflexivity. Qed.
+Lemma impl_BlockCreateFees_is_spec : impl_BlockCreateFees = compile spec_BlockCreateFees.
+Proof. vm_compute. reflexivity. Qed.
+Lemma impl_ConfigParam15_is_spec : impl_ConfigParam15 = compile spec_ConfigParam15.
+Proof. vm_compute. reflexivity. Qed.
+Lemma impl_ConfigParam17_is_spec : impl_ConfigParam17 = compile spec_ConfigParam17.
+Proof. vm_compute. reflexivity. Qed.
+Lemma impl_StoragePrices_is_spec : impl_StoragePrices = compile spec_StoragePrices.
+Proof. vm_compute. reflexivity. Qed.
+Lemma impl_BlockLimits_is_spec : impl_BlockLimits = compile spec_BlockLimits.
+Proof. vm_compute. reflexivity. Qed.
+Lemma impl_MsgForwardPrices_is_spec : impl_MsgForwardPrices = compile spec_MsgForwardPrices.
+Proof. vm_compute. reflexivity. Qed.
+Lemma impl_ConfigParam32_is_spec : impl_ConfigParam32 = compile spec_ConfigParam32.
+Proof. vm_compute. reflexivity. Qed.
+Lemma impl_ConfigParam33_is_spec : impl_ConfigParam33 = compile spec_ConfigParam33.
+Proof. vm_compute. reflexivity. Qed.
+Lemma impl_ConfigParam34_is_spec : impl_ConfigParam34 = compile spec_ConfigParam34.
+Proof. vm_compute. reflexivity. Qed.
+Lemma impl_ConfigParam35_is_spec : impl_ConfigParam35 = compile spec_ConfigParam35.
+Proof. vm_compute. reflexivity. Qed.
+Lemma impl_ConfigParam36_is_spec : impl_ConfigParam36 = compile spec_ConfigParam36.
+Proof. vm_compute. reflexivity. Qed.
+Lemma impl_ConfigParam37_is_spec : impl_ConfigParam37 = compile spec_ConfigParam37.
+Proof. vm_compute. reflexivity. Qed.
+Lemma impl_JettonBridgePrices_is_spec : impl_JettonBridgePrices = compile spec_JettonBridgePrices.
+Proof. vm_compute. reflexivity. Qed.
+Lemma impl_ParamLimits_is_spec : impl_ParamLimits = compile spec_ParamLimits.
+Proof. vm_compute. reflexivity. Qed.
+Lemma impl_ConfigParam16_is_spec : impl_ConfigParam16 = compile spec_ConfigParam16.
+Proof. vm_compute. reflexivity. Qed.
+Lemma impl_ConfigParam0_is_spec : impl_ConfigParam0 = compile spec_ConfigParam0.
+Proof. vm_compute. reflexivity. Qed.
+Lemma impl_ConfigParam1_is_spec : impl_ConfigParam1 = compile spec_ConfigParam1.
+Proof. vm_compute. reflexivity. Qed.
+Lemma impl_ConfigParam2_is_spec : impl_ConfigParam2 = compile spec_ConfigParam2.
+Proof. vm_compute. reflexivity. Qed.
+Lemma impl_ConfigParam3_is_spec : impl_ConfigParam3 = compile spec_ConfigParam3.
+Proof. vm_compute. reflexivity. Qed.
+Lemma impl_ConfigParam4_is_spec : impl_ConfigParam4 = compile spec_ConfigParam4.
+Proof. vm_compute. reflexivity. Qed.
+Lemma impl_ConfigParam8_is_spec : impl_ConfigParam8 = compile spec_ConfigParam8.
+Proof. vm_compute. reflexivity. Qed.
+Lemma impl_ConfigParam11_is_spec : impl_ConfigParam11 = compile spec_ConfigParam11.
+Proof. vm_compute. reflexivity. Qed.
+Lemma impl_ConfigParam12_is_spec : impl_ConfigParam12 = compile spec_ConfigParam12.
+Proof. vm_compute. reflexivity. Qed.
+Lemma impl_ConfigParam13_is_spec : impl_ConfigParam13 = compile spec_ConfigParam13.
+Proof. vm_compute. reflexivity. Qed.
+Lemma impl_ConfigParam14_is_spec : impl_ConfigParam14 = compile spec_ConfigParam14.
+Proof. vm_compute. reflexivity. Qed.
+Lemma impl_ConfigParam20_is_spec : impl_ConfigParam20 = compile spec_ConfigParam20.
+Proof. vm_compute. reflexivity. Qed.
+Lemma impl_ConfigParam21_is_spec : impl_ConfigParam21 = compile spec_ConfigParam21.
+Proof. vm_compute. reflexivity. Qed.
+Lemma impl_ConfigParam22_is_spec : impl_ConfigParam22 = compile spec_ConfigParam22.
+Proof. vm_compute. reflexivity. Qed.
+Lemma impl_ConfigParam23_is_spec : impl_ConfigParam23 = compile spec_ConfigParam23.
+Proof. vm_compute. reflexivity. Qed.
+Lemma impl_ConfigParam24_is_spec : impl_ConfigParam24 = compile spec_ConfigParam24.
+Proof. vm_compute. reflexivity. Qed.
+Lemma impl_ConfigParam25_is_spec : impl_ConfigParam25 = compile spec_ConfigParam25.
+Proof. vm_compute. reflexivity. Qed.
+Lemma impl_ConfigParam28_is_spec : impl_ConfigParam28 = compile spec_ConfigParam28.
+Proof. vm_compute. reflexivity. Qed.
+Lemma impl_ConfigParam29_is_spec : impl_ConfigParam29 = compile spec_ConfigParam29.
+Proof. vm_compute. reflexivity. Qed.
+Lemma impl_ConfigParam31_is_spec : impl_ConfigParam31 = compile spec_ConfigParam31.
+Proof. vm_compute. reflexivity. Qed.
+Lemma impl_ConfigParam44_is_spec : impl_ConfigParam44 = compile spec_ConfigParam44.
+Proof. vm_compute. reflexivity. Qed.
+Lemma impl_ConfigParam71_is_spec : impl_ConfigParam71 = compile spec_ConfigParam71.
+Proof. vm_compute. reflexivity. Qed.
+Lemma impl_ConfigParam72_is_spec : impl_ConfigParam72 = compile spec_ConfigParam72.
+Proof. vm_compute. reflexivity. Qed.
+Lemma impl_ConfigParam73_is_spec : impl_ConfigParam73 = compile spec_ConfigParam73.
+Proof. vm_compute. reflexivity. Qed.
+Lemma impl_ConfigParam79_is_spec : impl_ConfigParam79 = compile spec_ConfigParam79.
+Proof. vm_compute. reflexivity. Qed.
+Lemma impl_ConfigParam81_is_spec : impl_ConfigParam81 = compile spec_ConfigParam81.
+Proof. vm_compute. reflexivity. Qed.
+Lemma impl_ConfigParam82_is_spec : impl_ConfigParam82 = compile spec_ConfigParam82.
+Proof. vm_compute. reflexivity. Qed.
+Lemma impl_SuspendedAddressList_is_spec : impl_SuspendedAddressList = compile spec_SuspendedAddressList.
+Proof. vm_compute. reflexivity. Qed.
+Lemma impl_OracleBridgeParams_is_spec : impl_OracleBridgeParams = compile spec_OracleBridgeParams.
+Proof. vm_compute. reflexivity. Qed.
+Lemma impl_WalletV3Data_is_spec : impl_WalletV3Data = compile spec_WalletV3Data.
+Proof. vm_compute. reflexivity. Qed.
+Lemma impl_WalletV4Data_is_spec : impl_WalletV4Data = compile spec_WalletV4Data.
+Proof. vm_compute. reflexivity. Qed.
+Lemma impl_HighloadWalletData_is_spec : impl_HighloadWalletData = compile spec_HighloadWalletData.
+Proof. vm_compute. reflexivity. Qed.
+Lemma impl_NftItemData_is_spec : impl_NftItemData = compile spec_NftItemData.
+Proof. vm_compute. reflexivity. Qed.
+Lemma impl_NftItemSaleFees_is_spec : impl_NftItemSaleFees = compile spec_NftItemSaleFees.
+Proof. vm_compute. reflexivity. Qed.
+Lemma impl_NftItemSaleData_is_spec : impl_NftItemSaleData = compile spec_NftItemSaleData.
+Proof. vm_compute. reflexivity. Qed.
+
+(* FINDINGS: layouts of Spec/BlockTlb.v whose tree differs *)
+(* WorkchainFormat.deserialize accepts the tag #0 for wfmt_basic#1 and the tag #1 for wfmt_ext#0 *)
+Lemma impl_WorkchainFormat_1_differs : impl_WorkchainFormat_1 <> compile spec_WorkchainFormat_1.
+Proof. vm_compute. discriminate. Qed.
+Lemma impl_WorkchainFormat_0_differs : impl_WorkchainFormat_0 <> compile spec_WorkchainFormat_0.
+Proof. vm_compute. discriminate. Qed.
+(* JettonBridgeParams.deserialize does not read external_chain_address:bits256 of jetton_bridge_params_v1 *)
+Lemma impl_JettonBridgeParams_differs : impl_JettonBridgeParams <> compile spec_JettonBridgeParams.
+Proof. vm_compute. intros H. inversion H. Qed.
+
+Lemma spec_table_wf : wf_table spec_table = true.
+Proof. vm_compute. reflexivity. Qed.
+
+Theorem impl_agree : agree impl_table spec_table.
+Proof.
+  apply agree_of_Forall. unfold spec_table.
+  repeat (apply Forall_cons; [cbn [fst snd]; vm_compute; reflexivity|]). apply Forall_nil.
+Qed.
+
+(* C16 for one type of the table: the library's parser, run on the encoding of any well-typed value
+   followed by anything, returns the value and leaves exactly what followed *)
+Theorem C16_generic T L N :
+  forall (Hlookup : slookup spec_table T [] = Some L)
+         (Hneed : (need spec_table L <=? N) = true),
+  forall v tb tr bits refs fuel,
+    wt spec_table L v -> encode spec_table L v = Ok (bits, refs) -> N <= fuel ->
+    run_type impl_table fuel T [] (Cell (-1) (bits ++ tb) (refs ++ tr)) = Ok (v, mkS tb tr).
+Proof.
+  intros Hlookup Hneed v tb tr bits refs fuel Hwt Henc Hfuel. apply Nat.leb_le in Hneed.
+  apply (run_type_correct impl_table spec_table T [] L v bits refs spec_table_wf impl_agree
+           (wf_table_lookup _ _ _ _ spec_table_wf Hlookup) (impl_agree _ _ _ Hlookup) Hwt Henc).
+  lia.
+Qed.
